@@ -1,0 +1,85 @@
+//go:build verif
+
+// Verification hook for property C07 (add-only, compiled only with -tags verif): lets the /verif harness
+// run two internal steps of a build on a ResMap it prepared. Nothing here changes behaviour.
+package krusty
+
+import (
+	"sigs.k8s.io/kustomize/api/internal/accumulator"
+	"sigs.k8s.io/kustomize/api/internal/builtins"
+	fLdr "sigs.k8s.io/kustomize/api/internal/loader"
+	pLdr "sigs.k8s.io/kustomize/api/internal/plugins/loader"
+	"sigs.k8s.io/kustomize/api/internal/target"
+	"sigs.k8s.io/kustomize/api/resmap"
+	"sigs.k8s.io/kustomize/api/types"
+	"sigs.k8s.io/kustomize/kyaml/filesys"
+	"sigs.k8s.io/kustomize/kyaml/openapi"
+)
+
+// VerifC07IgnoreLocal runs KustTarget.IgnoreLocal on an accumulator that holds the resources of m
+// (the same *Resource pointers). afterAppend is called once the resources are inside the accumulator
+// and before IgnoreLocal runs, so the caller can rename resources in place the way an unchecked
+// transformer does. It returns the accumulator's ResMap afterwards.
+func VerifC07IgnoreLocal(rmF *resmap.Factory, m resmap.ResMap, afterAppend func()) (resmap.ResMap, error) {
+	fSys := filesys.MakeFsInMemory()
+	ldr, err := fLdr.NewLoader(fLdr.RestrictionNone, "/", fSys)
+	if err != nil {
+		return nil, err
+	}
+	kt := target.NewKustTarget(ldr, nil, rmF, pLdr.NewLoader(types.DisabledPluginConfig(), rmF, fSys))
+	ra := accumulator.MakeEmptyAccumulator()
+	if err := ra.AppendAll(m); err != nil {
+		return nil, err
+	}
+	if afterAppend != nil {
+		afterAppend()
+	}
+	if err := kt.IgnoreLocal(ra); err != nil {
+		return nil, err
+	}
+	return ra.ResMap(), nil
+}
+
+// VerifC07LegacySort runs the SortOrderTransformer with the legacy order, as krusty.Run does by default.
+func VerifC07LegacySort(m resmap.ResMap) error {
+	pl := &builtins.SortOrderTransformerPlugin{
+		SortOptions: &types.SortOptions{Order: types.LegacySortOrder},
+	}
+	return pl.Transform(m)
+}
+
+// VerifC07Accumulate loads the kustomization at path exactly as Run does (loader, KustTarget.Load, openapi
+// schema) and returns the accumulated ResMap of KustTarget.AccumulateTarget, i.e. the state on which the tail
+// of the build (hash names, fix references, IgnoreLocal, sort, annotation removal) then works.
+func VerifC07Accumulate(o *Options, fSys filesys.FileSystem, path string) (resmap.ResMap, error) {
+	b := MakeKustomizer(o)
+	resmapFactory := resmap.NewFactory(b.depProvider.GetResourceFactory())
+	lr := fLdr.RestrictionNone
+	if b.options.LoadRestrictions == types.LoadRestrictionsRootOnly {
+		lr = fLdr.RestrictionRootOnly
+	}
+	ldr, err := fLdr.NewLoader(lr, path, fSys)
+	if err != nil {
+		return nil, err
+	}
+	defer ldr.Cleanup()
+	kt := target.NewKustTarget(ldr, b.depProvider.GetFieldValidator(), resmapFactory,
+		pLdr.NewLoader(b.options.PluginConfig, resmapFactory, filesys.MakeFsOnDisk()))
+	if err = kt.Load(); err != nil {
+		return nil, err
+	}
+	var bytes []byte
+	if openApiPath, exists := kt.Kustomization().OpenAPI["path"]; exists {
+		if bytes, err = ldr.Load(openApiPath); err != nil {
+			return nil, err
+		}
+	}
+	if err = openapi.SetSchema(kt.Kustomization().OpenAPI, bytes, true); err != nil {
+		return nil, err
+	}
+	ra, err := kt.AccumulateTarget()
+	if err != nil {
+		return nil, err
+	}
+	return ra.ResMap(), nil
+}
